@@ -50,6 +50,13 @@ pub enum Op {
     /// attach from worker thread t (optionally inside runtime r) - a thread that may have a
     /// thread-local test sink installed / a runtime with a test sink: neither counts as "attached"
     AttachOn { t: u8, r: Option<u8>, sink: u8 },
+    /// thread t: `with_test_sink(sink, || append)` - scoped thread-local install, restored on return
+    WithTl { t: u8, sink: u8, kind: u8 },
+    /// thread t, inside runtime r: `set_test_sink_on_current_tokio_runtime(sink)` (the runtime is
+    /// taken from the caller's context); the guard travels back to the controller
+    SetRtCurrent { t: u8, r: u8, sink: u8 },
+    /// the runtime guard of r is dropped on worker thread t (the guard is Send)
+    DropRtOn { t: u8, r: u8 },
 }
 
 #[derive(Clone, Debug, Serialize, Deserialize)]
@@ -79,6 +86,19 @@ enum Cmd {
         reply: mpsc::Sender<bool>,
     },
     DropAttach(mpsc::Sender<bool>),
+    WithTl {
+        sink: BoxEntrySink,
+        kind: u8,
+        id: Id,
+        /// Err = with_test_sink panicked; Ok(appended)
+        reply: mpsc::Sender<Result<bool, ()>>,
+    },
+    SetRtCurrent {
+        rt: Arc<tokio::runtime::Runtime>,
+        sink: BoxEntrySink,
+        reply: mpsc::Sender<Option<TokioRuntimeTestSinkGuard>>,
+    },
+    DropRtGuard(TokioRuntimeTestSinkGuard, mpsc::Sender<bool>),
     Quit,
 }
 
@@ -90,6 +110,8 @@ trait Glob {
     fn has_sink() -> (bool, bool);
     fn set_tl(s: BoxEntrySink) -> ThreadLocalTestSinkGuard;
     fn set_rt(h: &tokio::runtime::Handle, s: BoxEntrySink) -> TokioRuntimeTestSinkGuard;
+    fn set_rt_current(s: BoxEntrySink) -> TokioRuntimeTestSinkGuard;
+    fn with_tl(s: BoxEntrySink, f: &mut dyn FnMut() -> bool) -> bool;
 }
 macro_rules! impl_glob {
     ($g:ty) => {
@@ -114,6 +136,12 @@ macro_rules! impl_glob {
             }
             fn set_rt(h: &tokio::runtime::Handle, s: BoxEntrySink) -> TokioRuntimeTestSinkGuard {
                 <$g>::set_test_sink_for_tokio_runtime(h, s)
+            }
+            fn set_rt_current(s: BoxEntrySink) -> TokioRuntimeTestSinkGuard {
+                <$g>::set_test_sink_on_current_tokio_runtime(s)
+            }
+            fn with_tl(s: BoxEntrySink, f: &mut dyn FnMut() -> bool) -> bool {
+                <$g>::with_test_sink(s, || f())
             }
         }
     };
@@ -182,6 +210,31 @@ fn worker<G: Glob>(rx: mpsc::Receiver<Cmd>) {
             Cmd::DropAttach(reply) => {
                 let had = attach_handle.take().is_some();
                 let _ = reply.send(had);
+            }
+            Cmd::WithTl { sink, kind, id, reply } => {
+                let r = catch_unwind(AssertUnwindSafe(|| {
+                    G::with_tl(sink, &mut || match kind % 3 {
+                        0 => G::g_try_append(TestE(id)).is_ok(),
+                        1 => {
+                            G::g_append(TestE(id));
+                            true
+                        }
+                        _ => {
+                            G::sink_append(TestE(id));
+                            true
+                        }
+                    })
+                }));
+                let _ = reply.send(r.map_err(|_| ()));
+            }
+            Cmd::SetRtCurrent { rt, sink, reply } => {
+                let _enter = rt.enter();
+                let r = catch_unwind(AssertUnwindSafe(|| G::set_rt_current(sink)));
+                let _ = reply.send(r.ok());
+            }
+            Cmd::DropRtGuard(g, reply) => {
+                drop(g);
+                let _ = reply.send(true);
             }
             Cmd::Quit => break,
         }
@@ -390,6 +443,72 @@ fn run_history<G: Glob + 'static>(case: &Case) -> CaseResult {
                         g.iter().rev().take(3).collect::<Vec<_>>(),
                         expected.iter().rev().take(3).collect::<Vec<_>>()
                     );
+                }
+                Op::WithTl { t, sink, kind } => {
+                    let t = t as usize % NT;
+                    let id = Id { p: t as u32, s: seq };
+                    seq += 1;
+                    let (rtx, rrx) = mpsc::channel();
+                    txs[t].send(Cmd::WithTl { sink: mk(sink), kind, id, reply: rtx }).unwrap();
+                    let res = rrx.recv().unwrap();
+                    match (res, tl[t]) {
+                        (Ok(true), None) => {
+                            expected.push((sink, id));
+                            levels_used[0] = true;
+                            classes.push("scoped-thread-local-sink");
+                        }
+                        (Err(()), Some(_)) => {
+                            panics += 1;
+                            classes.push("panic-second-thread-local");
+                        }
+                        (res, had) => vfail!(
+                            "global:with-test-sink-outcome",
+                            "op {i}: with_test_sink on thread {t} (thread-local sink already there: {had:?}) returned {res:?}"
+                        ),
+                    }
+                    let g = got.lock().unwrap().clone();
+                    vensure!(
+                        g == expected,
+                        "global:wrong-destination",
+                        "op {i} ({op:?}): collectors hold {:?}, expected {:?}",
+                        g.iter().rev().take(3).collect::<Vec<_>>(),
+                        expected.iter().rev().take(3).collect::<Vec<_>>()
+                    );
+                }
+                Op::SetRtCurrent { t, r, sink } => {
+                    let t = t as usize % NT;
+                    let r = r as usize % NR;
+                    let (rtx, rrx) = mpsc::channel();
+                    txs[t].send(Cmd::SetRtCurrent { rt: rts[r].clone(), sink: mk(sink), reply: rtx }).unwrap();
+                    let res = rrx.recv().unwrap();
+                    match (res, rt[r]) {
+                        (Some(g), None) => {
+                            rt_guards[r] = Some(g);
+                            rt[r] = Some(sink);
+                            levels_used[1] = true;
+                            classes.push("runtime-sink-installed-from-inside-the-runtime");
+                        }
+                        (None, Some(_)) => {
+                            panics += 1;
+                            classes.push("panic-second-runtime-sink");
+                        }
+                        (Some(g), Some(_)) => {
+                            std::mem::forget(g);
+                            vfail!("global:second-runtime-sink-accepted", "op {i}: a second runtime test sink was installed");
+                        }
+                        (None, None) => vfail!("global:runtime-install-panicked", "op {i}: installing the first runtime test sink (current runtime) panicked"),
+                    }
+                }
+                Op::DropRtOn { t, r } => {
+                    let t = t as usize % NT;
+                    let r = r as usize % NR;
+                    if let Some(g) = rt_guards[r].take() {
+                        let (rtx, rrx) = mpsc::channel();
+                        txs[t].send(Cmd::DropRtGuard(g, rtx)).unwrap();
+                        let _ = rrx.recv().unwrap();
+                        classes.push("runtime-guard-dropped-on-another-thread");
+                    }
+                    rt[r] = None;
                 }
                 Op::OtherGlobalAppend => {
                     let id = Id { p: 77, s: seq };
@@ -882,6 +1001,9 @@ pub fn arb_op() -> impl Strategy<Value = Op> {
         2 => (0u8..2).prop_map(|r| Op::DropRt { r }),
         12 => (0u8..3, prop::option::of(0u8..2), 0u8..3).prop_map(|(t, r, kind)| Op::Append { t, r, kind }),
         1 => Just(Op::OtherGlobalAppend),
+        2 => (0u8..3, 14u8..18, 0u8..3).prop_map(|(t, sink, kind)| Op::WithTl { t, sink, kind }),
+        2 => (0u8..3, 0u8..2, 24u8..28).prop_map(|(t, r, sink)| Op::SetRtCurrent { t, r, sink }),
+        1 => (0u8..3, 0u8..2).prop_map(|(t, r)| Op::DropRtOn { t, r }),
     ]
 }
 
@@ -891,11 +1013,11 @@ pub fn run(ctx: &mut Ctx) {
     ctx.explore(
         SubCfg::new(
             "c17-routing",
-            "histories (0-40 ops) over attach (from the controller or from a worker thread, optionally inside a runtime - a thread's or runtime's test sink does not make the global 'attached') / drop attach handle / install+drop thread-local test sink on one of 3 worker threads / install+drop runtime test sink on one of 2 current-thread tokio runtimes / append (try_append, append, sink().append) from a chosen thread optionally inside a chosen runtime, incl. the panicking operations (attach while attached, second thread-local / runtime install, append with nothing attached) under catch_unwind; on a harness-declared global and on ServiceMetrics; a second global must not interfere. Oracle: reference state machine {attached, tl[t], rt[r]}: destination = thread-local else runtime else attached else handed back (try_append) / panic (append); before every append try_sink() / is_attached() on that thread agree with the model destination; after EVERY append the tagged collectors hold exactly the expected (destination, entry) list; panicking ops leave the model state unchanged and later ops still behave per model. Non-trivial = all three levels were installed at some time and >= 1 panic path was taken",
+            "histories (0-40 ops) over attach (from the controller or from a worker thread, optionally inside a runtime - a thread's or runtime's test sink does not make the global 'attached') / drop attach handle / install+drop thread-local test sink on one of 3 worker threads / install+drop runtime test sink on one of 2 current-thread tokio runtimes (by handle from outside, or set_test_sink_on_current_tokio_runtime from a thread inside it; the guard dropped by the controller or on a worker thread) / with_test_sink(sink, || append) scoped installs / append (try_append, append, sink().append) from a chosen thread optionally inside a chosen runtime, incl. the panicking operations (attach while attached, second thread-local / runtime install, append with nothing attached) under catch_unwind; on a harness-declared global and on ServiceMetrics; a second global must not interfere. Oracle: reference state machine {attached, tl[t], rt[r]}: destination = thread-local else runtime else attached else handed back (try_append) / panic (append); before every append try_sink() / is_attached() on that thread agree with the model destination; after EVERY append the tagged collectors hold exactly the expected (destination, entry) list; panicking ops leave the model state unchanged and later ops still behave per model. Non-trivial = all three levels were installed at some time and >= 1 panic path was taken",
             if q { 12_000 } else { 200_000 },
         )
         .shrink_iters(300)
-        .mandatory(&["all-three-levels", "panic-attach-while-attached", "panic-second-thread-local", "panic-second-runtime-sink", "panic-append-unattached", "handed-back", "service-metrics-global", "attach-from-a-thread-with-a-test-sink"]),
+        .mandatory(&["all-three-levels", "panic-attach-while-attached", "panic-second-thread-local", "panic-second-runtime-sink", "panic-append-unattached", "handed-back", "service-metrics-global", "attach-from-a-thread-with-a-test-sink", "scoped-thread-local-sink", "runtime-sink-installed-from-inside-the-runtime", "runtime-guard-dropped-on-another-thread"]),
         || (prop::collection::vec(arb_op(), 0..40), prop::bool::weighted(0.3)).prop_map(|(ops, service_metrics)| Case { ops, service_metrics }),
         check,
     );
